@@ -169,6 +169,9 @@ def run(chk, repo: Repo):
             "raw matrix returned only for identity geometries",
             "get_matrix returns the stored raw matrix (function values -> function values) as the matrix of the parameter-to-parameter map "
             "without an identity-geometry guard, while the slow path assembles forward(e_i): the two denote different maps for non-identity geometries", gm)
+    # lazily cached results of the model layer are coherent with the (re-assignable) geometries they were computed through
+    from ..cachecoh import cache_coherence
+    cache_coherence(chk, repo, "C07-R3", ("cuqi/model/",))
     # R4
     T = lm.lookup_prop("T")
     if T is None or T.getter is None:
